@@ -133,6 +133,8 @@ impl Property for C05 {
     fn run(case: &Case, obs: &mut Obs) -> Result<(), Failure> {
         let epochs = gen_epochs(case.seed, case.n_epochs.max(1) as usize, case.maxlen.max(1) as u64, case.sat as u64);
         let mut chain = Chain::new(epochs.clone(), START_TIME, case.seed, Pow::Eaglesong, TxGen { density: 50, ..TxGen::default() });
+        // the chain itself has an activation boundary: no chain root commitment up to the first block of that epoch
+        chain.mmr_activated_epoch = case.mmr_epoch as u64;
         chain.mine_n(case.len as u64);
         let last_n = LAST_NS[case.last_n as usize % LAST_NS.len()];
         let interval = [4u64, 8, 16][case.interval as usize % 3];
